@@ -12,7 +12,7 @@ from vpkit import common, zoo
 
 ID = "C05"
 N = {"quick": 400, "thorough": 12000}
-BUDGET = {"quick": 240.0, "thorough": 1500.0}
+BUDGET = {"quick": 240.0, "thorough": 700.0}
 RULE = ("case = (zoo input incl. hostile mutation loads, max_shape, max_iterations, rescaling, "
         "phasing); distinct by (topology hash, option tuple); non-trivial = fit returned and all "
         "node, mutation and phase values judged (plus every intermediate iteration)")
